@@ -3,6 +3,6 @@
 cd /verif
 T=${1:-quick}; export VERIF_SEED=${2:-1}
 for p in C01 C02 C03 C04 C05 C06 C07 C08 C09 C10 C11 C12 C13 C14 C15 C16 C17 C18 C19; do
-  s=$(date +%s); ./check $p --tier $T > /tmp/runall_${T}_$p.log 2>&1; rc=$?
+  s=$(date +%s); timeout 3000 ./check $p --tier $T > /tmp/runall_${T}_$p.log 2>&1; rc=$?
   echo "$p tier=$T seed=$VERIF_SEED rc=$rc $(( $(date +%s) - s ))s $(grep -c '^VIOLATION' /tmp/runall_${T}_$p.log) violations $(grep -c '^KNOWN' /tmp/runall_${T}_$p.log) known"
 done
